@@ -434,11 +434,19 @@ C18Case genCase(uint64_t runSeed, const TierCfg &cfg) {
     cs.sched.seed = rng.u64();
     int scale = (int)rng.range(0, cfg.scaleMax);
     bool faults = rng.chance(0.3);
+    // "storm" runs: every task hammers the same one or two functions, which
+    // maximises the chance that two tasks are inside the same code at once
+    // (interference through state the library does not own, e.g. libc)
+    int stormFn[2] = {-1, -1};
+    if (rng.chance(0.25)) {
+        stormFn[0] = (int)rng.below(FN_COUNT);
+        stormFn[1] = rng.chance(0.5) ? stormFn[0] : (int)rng.below(FN_COUNT);
+    }
     for (int t = 0; t < T; t++) {
         int L = (int)rng.range(1, cfg.maxOpsPerTask);
         std::vector<Op> prog;
         for (int i = 0; i < L; i++) {
-            Op op = gen.anyOp(scale);
+            Op op = gen.anyOp(scale, stormFn[0] >= 0 ? stormFn[rng.below(2)] : -1);
             if (faults && fnIsC17(op.fn) && rng.chance(0.35)) {
                 switch (rng.below(3)) {
                     case 0:
